@@ -10,6 +10,14 @@ sys.path.insert(0, V)
 from rules import mir, panics, scopes
 
 # (regex on the obligation key "fn | kind | operands | #n",  one-line proof,  optional requirements)
+# data-structure invariants that hold wherever the operands occur (not tied to the control flow of one function): these are also
+# written as regular expressions ("classes") so that moving such an access into a new helper function does not create an
+# unreviewed site.  Everything else is accepted for its exact key only.
+CLASSES = [
+    (r"[^|]* \| BoundsCheck \| len=len\((arg\d+|local:[^|]*?)\.(filenames|filedata)\) index=[^|]*fileid[^|]* \| #\d+",
+     "file-id invariant: tokenize() gives the k-th file id k and appends exactly one entry per file to filenames/filedata before any token with that id exists; every ParseContext.fileid is copied from a token (producer side checked by R16-fileid)"),
+]
+
 REASONS = [
     # ---------------------------------------------------------------- classes (data-structure invariants)
     (r".* \| BoundsCheck \| len=len\((arg\d+|local:[^|]*?)\.(filenames|filedata)\) index=.*fileid.*",
@@ -106,6 +114,7 @@ def main():
                 else:
                     missing.append((name, o))
     json.dump({"_comment": "reviewed panic obligations the zone analysis cannot discharge; generated by tools/mk_audited.py from hand-written reasons; keys carry no line numbers",
+               "classes": [{"pattern": rx, "why": why} for rx, why in CLASSES],
                "sites": out}, open(os.path.join(V, "oracle", "audited_sites.json"), "w"), indent=1)
     print("written %d audited sites; %d obligations without a reviewed reason:" % (len(out), len(missing)))
     for name, o in missing:
